@@ -198,6 +198,27 @@ func c11Op(w *c11World, op string, tag int) (res string) {
 			return "ok:FOREIGN-OR-BAD-SIGNATURE"
 		}
 		return "ok"
+	case "SignViaSigners(h1)", "SignViaSigners(K1)":
+		// obtain the signer objects first, then sign through the object (what ssh.PublicKeysCallback(agent.Signers) does)
+		id := c11Ids[op[15:len(op)-1]]
+		ss, err := sh.Signers()
+		if err != nil {
+			return "err"
+		}
+		for _, sg := range ss {
+			if bytes.Equal(sg.PublicKey().Marshal(), id.pub.Marshal()) {
+				data := []byte(fmt.Sprintf("signer data of thread %d", tag))
+				sig, err := sg.Sign(nil, data)
+				if err != nil {
+					return "err"
+				}
+				if id.pub.Verify(data, sig) != nil {
+					return "ok:FOREIGN-OR-BAD-SIGNATURE"
+				}
+				return "ok"
+			}
+		}
+		return "err"
 	case "Add(c2.cur)":
 		id := c11Ids["c2.cur"]
 		return e(sh.Add(agent.AddedKey{PrivateKey: id.priv, Certificate: id.cert, Comment: "c2.cur"}))
@@ -391,7 +412,7 @@ func c11Explore(c *ev.Ctx, k c11Case, bound, dev int) {
 	}
 }
 
-var c11Ops = []string{"List", "Signers", "Sign(K1)", "Sign(h1)", "Add(c2.cur)", "Remove(c.cur)", "RemoveAll", "AddHardCert(h1free)", "Lock(p)", "Unlock(p)", "Extension", "Forward"}
+var c11Ops = []string{"List", "Signers", "Sign(K1)", "Sign(h1)", "Add(c2.cur)", "Remove(c.cur)", "RemoveAll", "AddHardCert(h1free)", "Lock(p)", "Unlock(p)", "Extension", "Forward", "SignViaSigners(h1)", "SignViaSigners(K1)"}
 
 func c11Scenarios(thorough bool) []c11Case {
 	var out []c11Case
